@@ -569,6 +569,33 @@ Qed.
 
 (* the structural fact is necessary: with the reply inside the `async with` a backend that
    buffers shows other sessions a stale file at the time of the 226 *)
+(* who looked before (or during) the transfer does not matter: observations change nothing, so a
+   script with stat / listing steps inserted ANYWHERE ends where the script without them ends *)
+Lemma observe_irrelevant : forall script v,
+  fold_left v_step script v = fold_left v_step (strip_observe script) v.
+Proof.
+  induction script as [|s r IH]; intros v; [reflexivity|].
+  destruct s; cbn [strip_observe filter is_observe negb fold_left]; apply IH.
+Qed.
+
+Theorem visible_after_226_observed : forall table vm off old block payload reads ctx flushes m script,
+  stor_table_ok table -> store_mode vm -> has_file ctx = true ->
+  conforming block payload reads ->
+  select_mode table vm (negb (off =? 0)) = Some m ->
+  strip_observe script = stor_script true ctx m off (iter_blocks reads) flushes ->
+  v_at_reply (v_run old script) = Some (spec_store vm off payload old, false)
+  /\ observed_size (v_run old script) = length (spec_store vm off payload old).
+Proof.
+  intros table vm off old block payload reads ctx flushes m script Ht Hvm Hf Hc Hm Hs.
+  unfold v_run. rewrite observe_irrelevant, Hs.
+  pose proof (visible_after_226 table vm off old block payload reads ctx flushes m Ht Hvm Hc Hf Hm) as H.
+  unfold v_run in H. split; [exact H|].
+  (* after the reply nothing else happens: the visible content is the one recorded at the reply *)
+  unfold observed_size, stor_script in *. 
+  rewrite !fold_left_app in *. cbn [fold_left v_step v_at_reply v_visible] in *.
+  injection H as H _. exact (f_equal (@length _) H).
+Qed.
+
 Lemma reply_inside_ctx_stale :
   v_at_reply (v_run [9%Z] (stor_script false ["FILE"; "STREAM"] WB 0 [[1%Z]; [2%Z]] []))
   = Some ([], true).
